@@ -108,7 +108,8 @@ def _build(rng):
             strings[1] = strings[1][: len(strings[1]) // 2] + q + strings[1][len(strings[1]) // 2:]
             strings[2] = strings[2] + q
             strings[4] = q
-    return {"family": family, "entries": entries, "other": other, "strings": strings, "mode": mode, "no_final_newline": rng.random() < 0.35}
+    return {"family": family, "entries": entries, "other": other, "strings": strings, "mode": mode, "no_final_newline": rng.random() < 0.35,
+            "line_ends": rng.choice(["lf", "lf", "lf", "crlf", "crlf", "cr"])}
 
 
 def strategy(tier):
@@ -144,6 +145,11 @@ def run_case(case) -> Outcome:
         return Outcome(skip="empty table")
     wd = driver.workdir()
     files = {"t0.tbl": T.table_file(entries), "t1.tbl": T.table_file(other)}
+    if case.get("line_ends") in ("crlf", "cr"):
+        # a table file saved with CR LF (or CR) line ends reads like any other text file
+        nl = "\r\n" if case["line_ends"] == "crlf" else "\r"
+        files = {k: v.replace("\n", nl) for k, v in files.items()}
+        labels.append("table-line-ends:" + case["line_ends"])
     if case.get("no_final_newline"):
         files = {k: v[:-1] if v.endswith("\n") else v for k, v in files.items()}
         labels.append("table-without-final-newline")
